@@ -23,6 +23,10 @@ impl<'a> WireFormat<'a> for DHCID<'a> {
     where
         Self: Sized,
     {
+        if *position + 3 > data.len() {
+            return Err(crate::SimpleDnsError::InsufficientData);
+        }
+
         let identifier = u16::from_be_bytes(data[*position..*position + 2].try_into()?);
         *position += 2;
 
